@@ -718,45 +718,51 @@ def run(ctx):
     impl = ctx.harness("harness/c/c11_constraint.c", "c11_constraint", deps=["harness/mjbuild.h"])
     if not (drv and impl):
         return
-    ups, lines, misc, extra, hist = synthetic_lines(ctx, 60000 if thorough else 6000, 20000 if thorough else 3000)
-    ctx.extra["synthetic_distribution"] = hist
     # ---- engine scenes first (their efc arrays also feed the correspondence)
     nfail, updlines = run_scenes(ctx, drv, impl, 160 if thorough else 26)
-    all_lines = lines + misc + extra + updlines
-    rc, outs, err = ctx.run_lines([impl], all_lines)
-    bad = ctx.differential("mj_constraintUpdate_impl / mju_mulMatTVec / pyramid codec / projectCone vs Lean model on Float (bitwise)",
-                           [drv], [impl], all_lines, keyf=keyf)
-    ctx.extra["max_float_deviation"] = max([0.0] + [max_dev(b["model"] or "", b["impl"] or "") for b in bad])
-    ctx.extra["tolerance"] = "bitwise (0 ulp): the model performs the same IEEE operations in the same order; tree built with -ffp-contract=off"
     ctx.extra["engine_upd_lines"] = len(updlines)
-    # ---- S: admissibility oracle on the implementation's outputs alone
-    nstate = {}
-    if rc == 0 and len(outs) == len(all_lines):
-        for u, o in zip(ups, outs[:len(ups)]):
-            r = parse_upd_out(o)
-            if r:
-                for st in r[2]:
-                    nstate[st] = nstate.get(st, 0) + 1
-            for key, what in admissible_oracle(u, o):
-                nfail += 1
-                if nfail <= 8:
-                    ctx.oracle_failure(key, what, {"line": u.line(0), "impl_output": o[:2000], "tags": u.tags,
-                                                   "replay": "echo '<line>' | <c11_constraint harness>"})
-        off = len(ups)
-        for l, o in zip(misc, outs[off:off + len(misc)]):
-            r = misc_oracle(l, o)
-            if r:
-                nfail += 1
-                if nfail <= 8:
-                    ctx.oracle_failure(r[0], r[1], {"line": l, "impl_output": o, "replay": "echo '<line>' | <c11_constraint harness>"})
-        for l, o in zip(extra, outs[off + len(misc):off + len(misc) + len(extra)]):
-            if o not in ("bad-op", "oob"):
-                ctx.oracle_failure("c11:malformed-accepted", "malformed / out-of-range op accepted", {"line": l, "impl_output": o})
-        ctx.sample({"op": lines[7][:160] + " ...", "tags": ups[7].tags, "model_and_impl_output": outs[7][:200]})
-        ctx.sample({"op": misc[3][:160], "impl_output": outs[off + 3][:160]})
-    else:
-        ctx.oracle_failure("c11:crash", "constraint harness crashed (rc=%s, %d outputs for %d lines)" % (rc, len(outs), len(all_lines)),
-                           {"stderr": err[-500:]})
+    ctx.extra["tolerance"] = "bitwise (0 ulp): the model performs the same IEEE operations in the same order; tree built with -ffp-contract=off"
+    nstate, hist_tot, maxdev = {}, {}, 0.0
+    nchunks = 6 if thorough else 1
+    for ch in range(nchunks):
+        ups, lines, misc, extra, hist = synthetic_lines(ctx, 50000 if thorough else 15000, 4000 if thorough else 3000)
+        for k, v in hist.items():
+            hist_tot[k] = hist_tot.get(k, 0) + v
+        all_lines = lines + misc + extra + (updlines if ch == 0 else [])
+        rc, outs, err = ctx.run_lines([impl], all_lines)
+        bad = ctx.differential("mj_constraintUpdate_impl / mju_mulMatTVec / pyramid codec / projectCone vs Lean model on Float "
+                               "(bitwise), chunk %d" % ch, [drv], [impl], all_lines, keyf=keyf)
+        maxdev = max([maxdev] + [max_dev(b["model"] or "", b["impl"] or "") for b in bad])
+        # ---- S: admissibility oracle on the implementation's outputs alone
+        if rc == 0 and len(outs) == len(all_lines):
+            for u, o in zip(ups, outs[:len(ups)]):
+                r = parse_upd_out(o)
+                if r:
+                    for st in r[2]:
+                        nstate[st] = nstate.get(st, 0) + 1
+                for key, what in admissible_oracle(u, o):
+                    nfail += 1
+                    if nfail <= 8:
+                        ctx.oracle_failure(key, what, {"line": u.line(0), "impl_output": o[:2000], "tags": u.tags,
+                                                       "replay": "echo '<line>' | <c11_constraint harness>"})
+            off = len(ups)
+            for l, o in zip(misc, outs[off:off + len(misc)]):
+                r = misc_oracle(l, o)
+                if r:
+                    nfail += 1
+                    if nfail <= 8:
+                        ctx.oracle_failure(r[0], r[1], {"line": l, "impl_output": o, "replay": "echo '<line>' | <c11_constraint harness>"})
+            for l, o in zip(extra, outs[off + len(misc):off + len(misc) + len(extra)]):
+                if o not in ("bad-op", "oob"):
+                    ctx.oracle_failure("c11:malformed-accepted", "malformed / out-of-range op accepted", {"line": l, "impl_output": o})
+            if ch == 0:
+                ctx.sample({"op": lines[7][:160] + " ...", "tags": ups[7].tags, "model_and_impl_output": outs[7][:200]})
+                ctx.sample({"op": misc[3][:160], "impl_output": outs[off + 3][:160]})
+        else:
+            ctx.oracle_failure("c11:crash", "constraint harness crashed (rc=%s, %d outputs for %d lines)" % (rc, len(outs), len(all_lines)),
+                               {"stderr": err[-500:]})
+    ctx.extra["synthetic_distribution"] = hist_tot
+    ctx.extra["max_float_deviation"] = maxdev
     ctx.extra["efc_state_histogram_synthetic"] = {str(k): v for k, v in sorted(nstate.items())}
     # ---- solveQCQP (no Lean model: oracle only)
     ql = gen_qcqp(ctx.rng, 4000 if thorough else 600)
